@@ -1648,6 +1648,9 @@ def ext_call(it, dotted, args, kw):
             if ai.truth(ai.compare(op, x, e)):
                 return i
         return len(seq)
+    if name == "functools.partial" and args:
+        fn, pargs, pkw = args[0], list(args[1:]), dict(kw)
+        return lambda *a, **k: it.call(fn, pargs + list(a), dict(pkw, **k))
     if name in ("itertools.groupby",):
         # runs of consecutive items with an equal (concrete) key
         keyf = args[1] if len(args) > 1 else kw.get("key")
